@@ -496,10 +496,16 @@ def run_shard(spec):
 
 def check_floors(counters, evaluations, tier):
     msgs = []
-    for key, frac in (('concurrent-writers', 0.1),
-                      ('chunk-larger-than-buffer', 0.12),
-                      ('worker-closed-pipe', 0.12), ('generations', 0.13)):
+    # (fractions of the pipe histories; the watched-file family has none of
+    # these classes)
+    evaluations = evaluations - counters.get('watched-file', 0)
+    for key, frac in (('concurrent-writers', 0.06),
+                      ('chunk-larger-than-buffer', 0.08),
+                      ('worker-closed-pipe', 0.08), ('generations', 0.12)):
         if counters.get(key, 0) < frac * evaluations:
             msgs.append("%s in only %d of %d cases" % (
                 key, counters.get(key, 0), evaluations))
+    if counters.get('external-rename-create', 0) < 300:
+        msgs.append("only %d watched-file cases with a rename + re-create" %
+                    counters.get('external-rename-create', 0))
     return msgs
